@@ -184,8 +184,74 @@ def rule_R03_5(ctx):
     return r
 
 
+def _not_unit_helper(call):
+    """Inline token-scanning helpers, but not the whitespace/comment skipper
+    (a helper that returns nothing consumes only ignorable characters)."""
+    g = call.fn.prog.fns.get(call.res)
+    return g is not None and bool(g.locals) and g.locals[0] != "()"
+
+
+def rule_R03_6(ctx):
+    import inline
+    prog = ctx.prog
+    r = RuleResult("R03.6", "the token scanner reports end of input only "
+                   "before it has consumed anything: no path leads from a "
+                   "consumed character to `None`",
+                   "a character that is consumed and then answered with `None` "
+                   "(end of the token stream) disappears: the rest of the "
+                   "file is silently accepted")
+    LEX_OPT = "std::option::Option<std::result::Result<"
+    cands = [f for f in prog.hand_fns()
+             if f.module.startswith("lexer") and not f.is_closure and not f.from_expansion
+             and f.impl_trait is None and f.locals and f.locals[0].startswith(LEX_OPT)
+             and "lexer::LexError" in f.locals[0]]
+    roots = [f for f in cands
+             if not any(f.path in inline.private_helpers(prog, g) for g in cands if g is not f)]
+    n = 0
+    for f0 in roots:
+        f = inline.view(prog, f0, pick=_not_unit_helper)
+        eats = [c.bb for c in f.calls() if not c.is_ptr and (c.res or "").split("::")[-1] in ("next_char", "next", "advance")
+                and c.argtys and "Scanner" in c.argtys[0]]
+        if not eats:
+            continue
+        n += 1
+        rets = f.return_locals()
+        nones = []
+        for bb in f.reachable():
+            for s_ in f.stmts(bb):
+                if s_[0] == "=" and not s_[1][1] and s_[1][0] in rets and s_[2][0] == "agg" \
+                        and s_[2][1].get("adt") == "std::option::Option" and s_[2][1].get("variant") == "None":
+                    nones.append(bb)
+            c = f.call_at(bb)
+            if c is not None and (c.declared or "").endswith("FromResidual::from_residual") \
+                    and c.dst is not None and c.dst[0] in rets and not c.dst[1] \
+                    and c.argtys and c.argtys[0].startswith("std::option::Option<"):
+                nones.append(bb)
+        after_eat = set()
+        for b in eats:
+            for s2 in f.succs(b):
+                after_eat |= f.reach_from(s2)
+        bad = sorted(set(nones) & after_eat)
+        r.inst("%s: %d consuming call(s), %d end-of-input return(s), %d of them after a consumed character"
+               % (f0.path, len(eats), len(set(nones)), len(bad)))
+        if not nones:
+            r.unproven.append("%s: no end-of-input return recognised" % f0.path)
+        elif not bad:
+            r.ok()
+        else:
+            t = f.term(bad[0])
+            r.fail("%s | end of input reported after consuming a character" % f0.path,
+                   "%s can consume a character and then return `None` (end of "
+                   "the token stream): that character is dropped and whatever "
+                   "was lexed so far is accepted as the whole file" % f0.path,
+                   where=mir.span_loc(t.get("span")) if t.get("span") else f0.path)
+    r.require_floor("token scanners (Option<Result<_, LexError>>) that consume characters", n, 1)
+    return r
+
+
 def run(ctx):
-    return [rule_R03_1(ctx), rule_R03_2(ctx), rule_R03_3(ctx), rule_R03_4(ctx), rule_R03_5(ctx)]
+    return [rule_R03_1(ctx), rule_R03_2(ctx), rule_R03_3(ctx), rule_R03_4(ctx), rule_R03_5(ctx),
+            rule_R03_6(ctx)]
 
 
 META = {
